@@ -421,7 +421,7 @@ def gen_c14_c(rng, real_pool=False):
              'sources': [{'ct': rng.choice((0.5, 1, 1, 2)), 'parts': rng.choice((None, 5, 20))}
                          for _ in range(rng.choice((1, 2, 2, 3)))],
              'stages': stages, 'sink_ct': rng.choice((0, 0.25))}
-    n = rng.choice((1, 2, 3, 5, 8))
+    n = rng.choice((1, 2, 3, 5, 8)) if rng.random() > 0.03 else rng.choice((33, 40))
     procs = rng.sample([1, 2, 3, n, None], rng.choice((2, 3)))
     case = {'engine': 'lifesim_multi', 'mspec': mspec, 'horizon': rng.choice((5, 12, 30)), 'n': n, 'procs': procs,
             'pool_seed': rng.randrange(10 ** 6), 'id_offset': rng.choice((0, 40))}
@@ -643,6 +643,47 @@ def run_c20_registry(case):
                         if n != 1:
                             fail('C20.b', f'{type(a).__name__} {a.name} has been initialised {n} times after '
                                  f'simulate call #{stats["simulate_calls"]}', 'init_count', cls=type(a).__name__)
+            elif k == 'multi':
+                # simulate_multiple_times in this process: it creates n systems, the last one is then the newest
+                made = []
+
+                def fn(system, index):
+                    h = lib.PartHandler(f'mh{index}', cycle_time=0.5)
+                    keep_alive.append(h)
+                    by_id[h.id] = h
+                    made.append((system, [h]))
+                    system.simulate(0.5, print_summary=False)
+                got = lib.System.simulate_multiple_times(fn, op[1], 0)
+                stats['reach']['simulate_multiple_times'] = stats['reach'].get('simulate_multiple_times', 0) + 1
+                if len(got) != op[1] or any(g is not m[0] for g, m in zip(got, made)):
+                    fail('C20.a', 'simulate_multiple_times did not return the systems it created, in order', 'multi_result')
+                systems.extend(made)
+            elif k == 'badsim':
+                # a simulate() call that fails (negative duration): the system must stay usable afterwards
+                si = len(systems) - 1
+                if si < 0:
+                    continue
+                sysm, lst = systems[si]
+                core.CURRENT.env = sysm.env
+                try:
+                    sysm.simulate(-1, print_summary=False)
+                except ValueError:
+                    stats['reach']['failed_simulate'] = stats['reach'].get('failed_simulate', 0) + 1
+                for a in lst:
+                    n = init_calls.get(id(a), 0)
+                    if n != 1:
+                        fail('C20.b', f'{type(a).__name__} {a.name} has been initialised {n} times after a failed simulate call',
+                             'init_count')
+            elif k == 'readd':
+                # add_asset on an already registered asset: nothing may change (checked by the registration oracle below)
+                if systems and systems[-1][1]:
+                    lst = systems[-1][1]
+                    a = lst[op[1] % len(lst)]
+                    lib.System.add_asset(a)
+                    n = init_calls.get(id(a), 0)
+                    if n > 1:
+                        fail('C20.b', f'{a.name} was initialised again by a repeated add_asset', 'init_count')
+                    stats['reach']['repeated_add_asset'] = stats['reach'].get('repeated_add_asset', 0) + 1
             elif k == 'find':
                 if not systems:
                     continue
@@ -723,11 +764,21 @@ def gen_c20_registry(rng, late_kinds=ASSET_KINDS):
             prog.append(['simulate', si, rng.choice((0, 0.5, 1, 2.5))])
             if si == n_sys - 1:
                 running = True
-        elif x < 0.8:
+        elif x < 0.76:
             prog.append(['system'])
             n_sys += 1
             made = []
             running = False
+        elif x < 0.78:
+            k = rng.choice((1, 2, 3))
+            prog.append(['multi', k])
+            n_sys += k
+            made = []
+            running = True
+        elif x < 0.80:
+            prog.append(rng.choice((['badsim'], ['readd', rng.randrange(8)])))
+            if prog[-1][0] == 'badsim':
+                running = True
         else:
             q = {}
             if rng.random() < 0.5:
